@@ -25,7 +25,7 @@ from snaxc.dialects import accfg
 PID = "C04"
 RULE = (
     "C04a: all G_acc programs with <= N nodes over snax_hwpe_mult / snax_alu / gemmini (several value patterns per setup so dedup leaves "
-    "different partial setups) -> trace+dedup(+overlap) -> convert-accfg-to-csr; x all loop/branch vectors x all barrier poll answer sequences "
+    "different partial setups; + setups mixing i32 and index values under every type mask) -> trace+dedup(+overlap) -> convert-accfg-to-csr; x all loop/branch vectors x all barrier poll answer sequences "
     "(<=2 deviations, <=3 busy polls). C04b: accelerator x streamer-configuration menu. C04c: histories of 2-3 compilations in one process over "
     "4 gemmx geometries / 4 ALU streamer configurations that declare the same accelerator name with different register maps (every ordered pair "
     "A,B and triple A,B,A); each module must be lowered against its own declaration. distinct = distinct (program, expected segments) / "
@@ -91,6 +91,18 @@ def space(tier):
         for p in G.skeletons(acc):
             for pl in ("accfg-trace-states,accfg-dedup", "accfg-trace-states,accfg-dedup,accfg-config-overlap", "accfg-trace-states"):
                 cases.append(("prog", acc, p, pl))
+    # setups that mix i32 and index values (the lowering casts index values to i32 per field): every type mask over the fields of
+    # snax_hwpe_mult in a one-setup and a two-setup program, rotating masks for the 17 fields of snax_alu
+    for acc in ("snax_hwpe_mult", "snax_alu"):
+        nf = len(T[acc]["fields"])
+        masks = list(itertools.product((0, 1), repeat=nf)) if nf <= 7 else [tuple(int((j + s) % m == 0) for j in range(nf)) for m in (2, 3, 5, 17) for s in range(m)]
+        for mask in masks:
+            if not any(mask):
+                continue
+            v1 = tuple(("nx", "ny")[j % 2] if t else ("x", "y")[j % 2] for j, t in enumerate(mask))
+            v2 = tuple(("ny", "nx")[j % 2] if t else ("y", "y", "x")[j % 3] for j, t in enumerate(mask))
+            cases.append(("prog", acc, (("L", acc, v1),), "accfg-trace-states"))
+            cases.append(("prog", acc, (("L", acc, v1), ("L", acc, v2)), "accfg-trace-states,accfg-dedup"))
     cases += [("map", i) for i in range(len(map_space(tier)))]
     # histories of compilations in ONE process: modules that declare the same accelerator name with different register maps, lowered one
     # after the other (what snax-opt --split-input-file or a configuration sweep does); every ordered pair and every triple A,B,A
